@@ -262,6 +262,47 @@ def fit_rules(run, repo, tables):
     return n_inst
 
 
+def bounded_data(I):
+    """the instances below hand from_data data vectors of a known, small number of entries (arrays written out entry
+    by entry); numpy's element-wise tests on data broadcast over such an array: the fit model's answer per entry"""
+    fitmodel.install(I)
+    scalar = {k: I.native['numpy.' + k] for k in ('isclose', 'isnan')}
+
+    def arr(items):
+        out = ListV(items)
+        out.is_array = True
+        return out
+
+    def is_vec(v):
+        return isinstance(v, ListV) and all(isinstance(x, Rat) for x in v.items)
+
+    def isclose(I_, fr, args, kwargs, n):
+        a, b = args[0], args[1]
+        if is_vec(a) or is_vec(b):
+            m = len(a) if is_vec(a) else len(b)
+            if is_vec(a) and is_vec(b) and len(a) != len(b):
+                raise _RaisedExc(Raised('ValueError', n))
+            return arr([scalar['isclose'](I_, fr, [a.items[k] if is_vec(a) else a, b.items[k] if is_vec(b) else b]
+                                          + list(args[2:]), kwargs, n) for k in range(m)])
+        return scalar['isclose'](I_, fr, args, kwargs, n)
+
+    def isnan(I_, fr, args, kwargs, n):
+        if is_vec(args[0]):
+            return arr([scalar['isnan'](I_, fr, [x], kwargs, n) for x in args[0].items])
+        return scalar['isnan'](I_, fr, args, kwargs, n)
+
+    base_allclose = I.native['numpy.allclose']
+
+    def allclose(I_, fr, args, kwargs, n):
+        if is_vec(args[0]) or is_vec(args[1]):
+            return all(isclose(I_, fr, args, kwargs, n).items)
+        return base_allclose(I_, fr, args, kwargs, n)
+    I.native['numpy.isclose'] = isclose
+    I.native['numpy.isnan'] = isnan
+    I.native['numpy.allclose'] = allclose
+    return I
+
+
 def partly_zero_data(run, repo, tables):
     """heat capacities that vanish at the cold end of the grid only (an adsorbate whose vibrations are frozen out at
     T_low: Cp/R(100 K) of a 2000 cm^-1 mode is 1e-9) are data like any other: the Cp coefficients come from the
@@ -274,7 +315,7 @@ def partly_zero_data(run, repo, tables):
         con = '%s.%s.from_data' % (qual.split('.')[-2], qual.split('.')[-1])
         npts = 15
         I = Interp(repo, order=RankOrder({'T_ref': 400}, const_ranks=True, fallback=_fallback_rank))
-        fitmodel.install(I)
+        bounded_data(I)
         D = I.D
         cp = [C(0)]
         for k in range(1, npts):
@@ -371,6 +412,10 @@ class GridVec(fitmodel.DataVec):
                 return 0
             if isinstance(v, Rat) and v.is_const() and v.const_value().denominator == 1:
                 return int(v.const_value())
+            sl = v.split_linear('len<vec>') if isinstance(v, Rat) else None     # len(T) - 5: the grid has npts points
+            if sl is not None and all(p.iszero() or (p.is_const() and p.const_value().denominator == 1) for p in sl):
+                co, rest = [0 if p.iszero() else int(p.const_value()) for p in sl]
+                return co * self.npts + rest
             raise Unsupported('slice of the temperature data with symbolic bounds', n)
         if isinstance(n.slice, ast.Slice):
             ks = range(self.npts)[const_int(n.slice.lower):const_int(n.slice.upper):const_int(n.slice.step)]
@@ -521,7 +566,7 @@ def nasa7_fallback_break(run, repo):
     for npts, kind in itertools.product((15, 16, 200), ('zero', 'nan')):
         t_lo, t_hi = 300, 1000
         I = Interp(repo, order=RankOrder({'T_ref': 400}, const_ranks=True, fallback=_fallback_rank))
-        fitmodel.install(I)
+        bounded_data(I)
         D = I.D
         cp = [C(0)] * npts
         if kind == 'nan':
@@ -828,13 +873,21 @@ def check(run, repo):
         'Shomate (symbolic units): H(T_ref)=HoRT_ref, S(T_ref)=SoR_ref, H and S continuous at every break, Cp slots '
         'untouched by the anchoring, bounds = min/max of the data. (C) from_model hands from_data reference values '
         'sampled from the same model at the temperature it passes as T_ref, inside the window, and Cp sampled on the '
-        'grid it passes (one temperature at a time when the model does not vectorise).')
+        'grid it passes (one temperature at a time when the model does not vectorise). (D) the break temperature '
+        'that Nasa.from_data chooses itself (degenerate data; T_mid=None) lies strictly inside the span of the data; '
+        'the bounds read from a fitted Nasa9 species (1-3 segments) are that span; Cp data that vanish at one '
+        'temperature only are fitted (Shomate).')
     run.assumptions = ['np.polyfit returns coefficients highest power first; curve_fit returns one value per parameter '
                        'of the model function after the first; a masked sub-vector of generic data is generic and '
                        'has more entries than any small constant it is compared with',
                        'T_mid given as a scalar, a list of two candidates (the mean squared errors are uninterpreted '
                        'positive numbers, either order) or an array of NASA-9 breaks; the default search over data '
-                       'points (T_mid=None) is not followed']
+                       'points (T_mid=None) is followed on an ascending grid of 15 temperatures with the fit error '
+                       'monotone in the candidate (growing, falling), not for other orders of the errors',
+                       'bounded instances on concrete grids: degenerate Cp data on 15, 16 and 200 equally spaced '
+                       'temperatures (the break chosen by Nasa.from_data itself); Cp zero at the first of 15 '
+                       'temperatures only (Shomate; the NASA fits of such data need np.extract on bounded vectors, '
+                       'which the fit model does not have)']
     run.undecided = ['fit quality (tracks the source / reproduces a same-family polynomial): least-squares and '
                      'Nelder-Mead behaviour on data',
                      'break temperatures strictly inside the range for user-supplied T_mid (no validation exists)']
@@ -897,8 +950,41 @@ MUTANTS = [
      'edits': [(N, '    high_condition = (T > T_mid)', '    high_condition = (T >= T_mid)')]},
     {'name': 'Nasa T_high from T_mid', 'expect': ('DATAFLOW.bounds', 'Nasa.from_data'),
      'edits': [(N, '        T_high = max(T)\n\n        # Find midpoint temperature, and a[0] through a[4] parameters\n        a_low, a_high, T_mid_out', '        T_high = min(T)\n\n        # Find midpoint temperature, and a[0] through a[4] parameters\n        a_low, a_high, T_mid_out')]},
+    {'name': 'Shomate: one vanishing heat capacity sends the species down the zero-Cp shortcut',
+     'expect': ('REF.fit', 'Shomate.from_data'),
+     'edits': [(S_, '''    if all([np.isclose(x, 0.) for x in CpoR]) \\
+       or any([np.isnan(x) for x in CpoR]):
+        return np.zeros(8)''', '''    if any([np.isclose(x, 0.) or np.isnan(x) for x in CpoR]):
+        return np.zeros(8)''')]},
+    {'name': 'NASA-7 zero-Cp fallback puts the break on the last data point',
+     'expect': ('REF.break-inside', 'Nasa.from_data'),
+     'edits': [(N, '        T_mid = T[int(len(T) / 2)]', '        T_mid = T[-1]')]},
+    {'name': 'NASA-7 zero-Cp fallback puts the break on the first data point',
+     'expect': ('REF.break-inside', 'Nasa.from_data'),
+     'edits': [(N, '        T_mid = T[int(len(T) / 2)]', '        T_mid = T[int(len(T) / 300)]')]},
+    {'name': 'Nasa9.T_high computed from the lower bounds of the segments',
+     'expect': ('DATAFLOW.bounds', 'Nasa9.from_data'),
+     'edits': [(N, '        T_highs = [nasa.T_high for nasa in self.nasas]', '        T_highs = [nasa.T_low for nasa in self.nasas]')]},
+    {'name': 'Nasa9.T_low computed from the upper bounds of the segments',
+     'expect': ('DATAFLOW.bounds', 'Nasa9.from_data'),
+     'edits': [(N, '        T_lows = [nasa.T_low for nasa in self.nasas]', '        T_lows = [nasa.T_high for nasa in self.nasas]')]},
+    {'name': 'default T_mid screen starts at the first data point', 'expect': ('REF.break-inside', 'Nasa.from_data'),
+     'edits': [(N, '        T_mid = T[5:-5]', '        T_mid = T[:-5]')]},
+    {'name': 'default T_mid screen runs up to the last data point', 'expect': ('REF.break-inside', 'Nasa.from_data'),
+     'edits': [(N, '        T_mid = T[5:-5]', '        T_mid = T[5:]')]},
 ]
 EQUIV = [
+    {'name': 'default T_mid screen written with an explicit upper index',
+     'edits': [(N, '        T_mid = T[5:-5]', '        T_mid = T[5:len(T) - 5]')]},
+    {'name': 'Nasa9 species bounds with the builtin min/max',
+     'edits': [(N, '        return np.max(T_highs)', '        return max(T_highs)'),
+               (N, '        return np.min(T_lows)', '        return min(T_lows)')]},
+    {'name': 'Shomate degenerate-data guard written with generators',
+     'edits': [(S_, '''    if all([np.isclose(x, 0.) for x in CpoR]) \\
+       or any([np.isnan(x) for x in CpoR]):
+        return np.zeros(8)''', '''    if all(np.isclose(x, 0.) for x in CpoR) \\
+       or any(np.isnan(x) for x in CpoR):
+        return np.zeros(8)''')]},
     {'name': '_fit_SoR rewritten with explicit difference',
      'edits': [(N, '        a7_low_out = SoR_ref - get_nasa_SoR(a=a_low, T=T_ref)', '        a7_low_out = -(get_nasa_SoR(a=a_low, T=T_ref) - SoR_ref)')]},
     {'name': 'masks written with flipped operands kept complementary',
